@@ -107,6 +107,7 @@ template <typename T>
 struct LogFn
 {
     Log<T>* log;
+    mutable std::size_t invoked = 0; // state held BY VALUE: how often THIS function object was invoked
 
     static void extra(hep::vegas_point<T> const& p, Event<T>& e) { e.bins = p.bin(); }
     static void extra(hep::multi_channel_point<T> const& p, Event<T>& e) { e.channel = p.channel(); e.coords_addr = &p.coordinates(); e.coords_size = p.coordinates().size(); e.coords_in = hash_vec(p.coordinates()); }
@@ -116,6 +117,7 @@ struct LogFn
     T eval(P const& p, hep::projector<T>* proj) const
     {
         std::size_t const i = log->calls_seen++;
+        ++invoked;
         Event<T> b;
         b.kind = FBEGIN;
         b.point = p.point();
@@ -221,6 +223,8 @@ void run_t(vf::Ctx& c)
             if (scripted) { vf::script_engine e(script); if (integrator == 0) { hep::plain_iteration(ig, calls, e); } else { hep::vegas_iteration(ig, calls, pdf, e); } }
             else { std::mt19937 e(seed); if (integrator == 0) { hep::plain_iteration(ig, calls, e); } else { hep::vegas_iteration(ig, calls, pdf, e); } }
         });
+        VF_CHECK(c, (with_dist ? igd.function().invoked : igp.function().invoked) == calls, "C17:function-object", "the function object of the integrand that was handed to the integrator was invoked "
+            << (with_dist ? igd.function().invoked : igp.function().invoked) << " times for " << calls << " calls (a copy was invoked instead)");
         c.desc << " d=" << dims << (integrator == 1 ? " bins=" + std::to_string(bins) : std::string());
         // one FBEGIN/FEND pair per call, nothing else
         VF_CHECK(c, log.ev.size() == 2 * calls, "C17:integrand-count", "integrand invoked " << log.ev.size() / 2 << " times for " << calls << " calls");
@@ -281,6 +285,15 @@ void run_t(vf::Ctx& c)
         vf::PwcFamily<T> fam = vf::gen_pwc<T>(t, 3, channels, 3);
         std::vector<T> w = vf::gen_weights<T>(t, channels);
         w.resize(channels, T(1));
+        if (vf::mix2(0xC17, static_cast<std::uint64_t>(channels) * 131 + calls) % 5 == 0)
+        {
+            // weights as the adaptation hands them to the next iteration after an iteration whose squares overflowed:
+            // an infinite adjustment datum, a positive minimum weight
+            std::vector<T> data(channels, T(1));
+            data[calls % channels] = std::numeric_limits<T>::infinity();
+            w = hep::multi_channel_refine_weights(w, data, T(0.05) / T(channels), T(0.25));
+            c.label("weights-refined-from-overflowed-data");
+        }
         std::size_t disabled = 0;
         std::vector<std::size_t> expect_enabled;
         for (std::size_t i = 0; i != channels; ++i) { if (w[i] != T(0)) { expect_enabled.push_back(i); } else { ++disabled; } }
@@ -294,6 +307,8 @@ void run_t(vf::Ctx& c)
             else { std::mt19937 e(seed); hep::multi_channel_iteration(ig, calls, w, e); }
         });
         c.desc << " w=" << vf::show(w) << ' ' << fam.describe();
+        VF_CHECK(c, (with_dist ? igd.function().invoked : igp.function().invoked) == calls, "C17:function-object", "the function object of the integrand that was handed to the integrator was invoked "
+            << (with_dist ? igd.function().invoked : igp.function().invoked) << " times for " << calls << " calls (a copy was invoked instead)");
         VF_CHECK(c, !log.map_state_lost, "C17:map-object", "a densities request reached a map object whose last coordinates request was for another point (the map was copied in between)");
         // state machine over the log
         std::size_t pos = 0;
